@@ -18,7 +18,7 @@ RULE = ("Hypothesis draws (variable definition, candidate value) pairs per varia
         "had to change the value, or the value is a boundary / tie; distinct = SHA-256 of (definition, value).")
 ASSUMPTIONS = ["NaN inputs are outside the law's domain", "domain membership predicate: harness/oracles.py:member",
                "candidate values stay within the float64 range (no Python ints beyond it)"]
-BUDGET = {"quick": 700, "thorough": 12000}
+BUDGET = {"quick": 4000, "thorough": 60000}
 TYPES = ("ContinuousVariable", "ContinuousMultiVariable", "MultiObjectiveVariable", "DiscreteVariable",
          "DiscreteMultiVariable", "BinaryVariable", "PermutationVariable", "invalid")
 
